@@ -51,13 +51,15 @@ StartState ==
                [] a[1] = "s" -> [Local0 EXCEPT !.pc = "s.idle"]
                [] a[1] = "d" -> [Local0 EXCEPT !.pc = IF UseD THEN "s.idle" ELSE "s.end"]
                [] a[1] = "env" -> [Local0 EXCEPT !.pc = "env"]
+               [] a[1] = "x" -> [Local0 EXCEPT !.pc = IF cfg'.sync /\ a[2] = 1 THEN "x.idle" ELSE "x.end"]
                [] OTHER -> Local0]
   /\ lab' = [a |-> NoActor, n |-> "reset", x |-> 0, y |-> 0, z |-> 0]
 
 TraceInit ==
   /\ l = 1 /\ tov = FALSE /\ tbad = FALSE /\ tdl = FALSE /\ dead = FALSE
   /\ TLCSet(1, 0)
-  /\ cfg = [key |-> [s \in Subs |-> 1], filt |-> [s \in Subs |-> "all"], conn |-> [s \in Subs |-> 1], start |-> [i \in Inst |-> "ok"], fetch |-> [s \in Subs |-> FALSE]]
+  /\ cfg = [key |-> [s \in Subs |-> 1], filt |-> [s \in Subs |-> "all"], conn |-> [s \in Subs |-> 1], start |-> [i \in Inst |-> "ok"], fetch |-> AllFalse,
+            rerr |-> AllFalse, hooks |-> FALSE, hookfail |-> AllFalse, sync |-> FALSE]
   /\ g = InitG /\ o = InitO
   /\ ac = [a \in Actors |-> Local0]
   /\ lab = [a |-> NoActor, n |-> "init", x |-> 0, y |-> 0, z |-> 0]
@@ -65,7 +67,8 @@ TraceInit ==
 T_Reset ==
   /\ l <= Len(TraceLog) /\ Ev.ev = "reset" /\ l' = l + 1
   /\ cfg' = [key |-> [s \in Subs |-> Ev.key[s]], filt |-> [s \in Subs |-> Ev.filt[s]],
-             conn |-> [s \in Subs |-> Ev.conn[s]], start |-> [i \in Inst |-> Ev.start[i]], fetch |-> [s \in Subs |-> Ev.fetch[s]]]
+             conn |-> [s \in Subs |-> Ev.conn[s]], start |-> [i \in Inst |-> Ev.start[i]], fetch |-> [s \in Subs |-> Ev.fetch[s]],
+             rerr |-> [s \in Subs |-> Ev.rerr[s]], hooks |-> Ev.hooks, hookfail |-> [s \in Subs |-> Ev.hookfail[s]], sync |-> Ev.sync]
   /\ StartState
   /\ tov' = FALSE /\ tbad' = FALSE /\ tdl' = FALSE /\ dead' = FALSE
 
@@ -77,7 +80,7 @@ T_End ==
   /\ Ev.wedged = 0 /\ Ev.panic = 0
   /\ Ev.trig = Cardinality({k \in Keys : g.reg[k] # 0})
   /\ Ev.subs = Cardinality(g.byid)
-  /\ Ev.conns = Cardinality({cfg.conn[s] : s \in g.byid})
+  /\ Ev.conns = Cardinality({Conn(s) : s \in g.byid})
   /\ Ev.sinc = o.subInc /\ Ev.sdec = o.subDec /\ Ev.tinc = o.trigInc /\ Ev.tdec = o.trigDec
   /\ Ev.uncancelled = Cardinality({i \in Inst : o.nstart[i] > 0 /\ ~g.tctx[i]})
   /\ UNCHANGED <<vars, tov, tbad, tdl, dead>>
@@ -118,6 +121,12 @@ TraceAccepted ==
        /\ FALSE
 TraceView == <<cfg, g, o, ac, l, tov, tbad, tdl, dead>>
 CfgAll(c) == TRUE
+FeatNone == {}
+FeatFetch == {"fetch"}
+FeatErr == {"ferr", "rerr"}
+FeatHooks == {"hooks"}
+FeatAll == {"fetch", "ferr", "rerr", "hooks", "sync"}
+FeatSync == {"sync"}
 TraceTolerant == TRUE
 StartAll == {"ok", "fail", "ctx"}
 =============================================================================
